@@ -24,4 +24,50 @@ theorem C03_step (file : List Line) (o : ApplyOpts) (p : Patch) (s : AState) (nu
     · rw [hskip] at hno; cases hno
     · cases hno
 
+/-! ### D99, a concrete instance: context at the end of a hunk which fuzz ignores need not be in the file
+
+The file is `a b c d`; the hunk `@@ -2,4 +2,4 @@` has the lines ` b`, `-c`, `+C`, ` d`, ` e`: its last context line `e` would be line 5
+of a file of four lines.  With fuzz 1 the last line of the hunk is not compared (the longer, trailing context is trimmed first), and
+the hunk is placed at line 2 although its old side reaches one line beyond the end of the file. -/
+namespace D99
+def ln (c : UInt8) : Line := ⟨[c], .lf⟩
+/-- a b c d -/
+def file : List Line := [ln 97, ln 98, ln 99, ln 100]
+/-- `@@ -2,4 +2,4 @@`: ` b`, `-c`, `+C`, ` d`, ` e` -/
+def hunk : Hunk := ⟨⟨2, 4⟩, ⟨2, 4⟩, [⟨SP, ln 98⟩, ⟨MINUS, ln 99⟩, ⟨PLUS, ln 67⟩, ⟨SP, ln 100⟩, ⟨SP, ln 101⟩]⟩
+def patch : Patch := { hunks := [hunk] }
+
+theorem hunk_WF : hunk.WF := by unfold Hunk.WF; decide
+
+/-- the placement at index 1 reaches beyond the end of the file; it is admissible with fuzz 1 (one trailing line ignored), with fuzz 0
+    nothing is, anywhere -/
+theorem admissible : 1 + (oldOf hunk.lines).length = file.length + 1 ∧ fuzzPair hunk.lines 1 = (0, 1) ∧
+    admissibleB file hunk false 2 1 1 = true ∧ allAdmissible file hunk false 0 0 = [] ∧
+    nextCursor file hunk 1 = file.length := by decide
+
+/-- `locate_hunk` finds it at line index 1 with fuzz 1 (offset 0) -/
+theorem located : locateHunk file hunk false 0 2 0 = some ⟨1, 1, 0⟩ := by decide
+
+/-- … as `locate_complete` says it must, the fuzz being least -/
+example : ∃ loc, locateHunk file hunk false 0 2 0 = some loc ∧ loc.fuzz ≤ 1 :=
+  locate_complete file hunk false 0 2 0 1 1 hunk_WF (by decide) (by decide) admissible.2.2.1
+
+/-- `apply_patch` (`-F 2`, the default) writes `a b C d`: the line `e` is not written, nothing of the file is lost, nothing is rejected -/
+theorem applied : ∃ r, applyPatch file patch {} none = .ok r ∧
+    r.out = [.fromFile 0 (ln 97), .fromFile 1 (ln 98), .fromPatch (ln 67), .fromFile 3 (ln 100)] ∧
+    r.out = spliceAt file 0 [(hunk, 1)] ∧
+    render .lf r.out = [97, 10, 98, 10, 67, 10, 100, 10] ∧
+    r.applied = [(0, ⟨1, 1, 0⟩)] ∧ r.rejected = [] ∧ r.failed = 0 ∧
+    r.msgs = [.hunk 1 "succeeded" 2 1 0] :=
+  ⟨_, rfl, by decide⟩
+
+#guard (match applyPatch file patch {} none with
+        | .ok r => render .lf r.out == str "a\nb\nC\nd\n"
+        | .error _ => false)
+#guard locateHunk file hunk false 0 2 0 == some ⟨1, 1, 0⟩
+-- with `-F 0` the hunk is rejected
+#guard locateHunk file hunk false 0 0 0 == none
+
+end D99
+
 end PatchModel.C03
